@@ -18,7 +18,11 @@ VARIABLES
 vars == <<in, pc, ti, traits, mi, fctx, merged, errors, pending, impls>>
 
 TNames == {"from_owned", "owned_try_into", "map"}
-Init == /\ in = [dt |-> "struct", shape |-> "named", traits |-> <<>>, tattrs |-> <<>>, ms |-> <<>>, rms |-> <<>>]
+\* the author's type always carries a (possibly unused) #[child_parents(..)], so that #[child] members are not a class 8 fault
+ChildParents == [n |-> "child_parents", cp |-> "-", own |-> FALSE]
+\* the validation view of a member that writes the instruction categories o (in the order they are printed: child, map)
+MView(o) == (IF "child" \in o THEN << [n |-> "child", cp |-> "-", own |-> FALSE] >> ELSE <<>>) \o (IF "map" \in o THEN << [n |-> "map", cp |-> "-", own |-> FALSE] >> ELSE <<>>)
+Init == /\ in = [dt |-> "struct", shape |-> "named", traits |-> <<>>, tattrs |-> << ChildParents >>, ms |-> <<>>, rms |-> <<>>]
         /\ pc = "author" /\ ti = 1 /\ traits = <<>> /\ mi = 1 /\ fctx = 0 /\ merged = <<>>
         /\ errors = <<>> /\ pending = {} /\ impls = <<>>
 
@@ -28,7 +32,7 @@ AddTrait(n, cp, e) == /\ pc = "author" /\ Len(in.traits) < MaxTraits /\ in.rms =
                       /\ UNCHANGED <<pc, ti, traits, mi, fctx, merged, errors, pending, impls>>
 AddMember(o, r, st, sk) == /\ pc = "author" /\ Len(in.rms) < MaxMembers
                            /\ in' = [in EXCEPT !.rms = Append(@, [own |-> o, rep |-> r, cats |-> {}, stop |-> st, skip |-> sk]),
-                                               !.ms = Append(@, <<>>)]
+                                               !.ms = Append(@, MView(o))]
                            /\ UNCHANGED <<pc, ti, traits, mi, fctx, merged, errors, pending, impls>>
 Seal == pc = "author" /\ pc' = "parse_type" /\ UNCHANGED <<in, ti, traits, mi, fctx, merged, errors, pending, impls>>
 
